@@ -51,6 +51,9 @@ def build(rng):
         nb = 1
     els, blocks = [], []
     units = rng.sample(UNITS, nb)
+    if nb >= 2 and rng.random() < 0.15:
+        nb = 2
+        units = [rng.choice(["CO", "CS", "CN", "C(F)C"])] * 2  # adjacent blocks of the SAME (asymmetric) unit: a chain has one reading per way of splitting its units between the blocks
     fam_i = rng.randrange(len(FAMS))
     for b in range(nb):
         smi = units[b]
@@ -172,8 +175,9 @@ def run_case(case):
     if len(blocks) == 1:
         combos = [(n,) for n in range(1, nmax + 1)]
     else:
+        same_unit = len({u for u, m in blocks}) == 1
         for _ in range(nmax):
-            combos.append(tuple(rng.randint(1, max(2, nmax // 2)) for _ in blocks))
+            combos.append(tuple(rng.randint(1, 3 if same_unit else max(2, nmax // 2)) for _ in blocks))
         combos = sorted(set(combos))
     total = 0.0
     total_ref = 0.0
@@ -206,8 +210,21 @@ def run_case(case):
             if mol is None:
                 continue
             canon = Chem.MolToSmiles(mol)
-            want = reference(lengths, canon)
-            pch_of_query = last_pch[0]
+            # all length tuples that denote this very molecule (blocks of one and the same unit can share their units in several ways)
+            equiv = [tuple(lengths)]
+            if start == "prefix" and len(blocks) >= 2 and len({u for u, m in blocks}) == 1:
+                import itertools as _it3
+
+                N = sum(lengths)
+                equiv = [c for c in _it3.product(range(1, N), repeat=len(blocks)) if sum(c) == N]
+            want, pch_of_query = 0.0, 1.0
+            for R in equiv:
+                w = reference(R, canon)
+                if w is None:
+                    want = None
+                    break
+                want += w
+                pch_of_query = last_pch[0]
             if want is None:
                 cnt["reference_undecided"] += 1
                 decided_all = False
@@ -247,15 +264,19 @@ def run_case(case):
                 pch = pch_of_query  # probability of the choice sequences that build this molecule (targets permitting); 1 for prefix chains
                 g_used = any(e.dist.family == "gauss" and n == 1 for (i, e), n in zip(stoch, lengths))
                 cands = []  # (predicted value, class when it matches with multiplicity 1)
-                readings = [tuple(lengths)]
+                def lib_value(Rs):
+                    tot = 0.0
+                    for R in Rs:
+                        p = pch
+                        for (i, e), r, (u, m), n in zip(stoch, refs, blocks, R):
+                            p *= lib_pi(e, r, m, n)
+                        tot += p
+                    return tot
+
+                parts = [lib_value(equiv)]
                 if start == "prefix" and gen.parse_fragment(tail).to_text() == blocks[-1][0]:
-                    readings.append(tuple(lengths[:-1]) + (lengths[-1] + 1,))
-                parts = []
-                for R in readings:
-                    p = pch
-                    for (i, e), r, (u, m), n in zip(stoch, refs, blocks, R):
-                        p *= lib_pi(e, r, m, n)
-                    parts.append(p)
+                    parts.append(lib_value([tuple(R[:-1]) + (R[-1] + 1,) for R in equiv]))
+                g_used = g_used or any(e.dist.family == "gauss" and 1 in [R[k] for R in equiv] for k, (i, e) in enumerate(stoch))
                 if g_used:
                     cands.append((parts[0], "c19.value-differs.gauss-single-unit-omits-negative-targets"))
                 if len(parts) > 1 and parts[1] > tol:
